@@ -1558,6 +1558,9 @@ _U = 'utils/courier_utils.py'
 _W = 'chainables/courier_worker.py'
 _O = 'chainables/orchestrate.py'
 VARIANTS = [
+    OK('call-and-wait-releases-in-a-base-exception-handler', 'chainables/courier_worker.py',
+       "    except Exception as e:  # pylint: disable=broad-exception-caught\n      raise e\n    finally:\n      self.release_all()\n    return result",
+       "    except BaseException:  # pylint: disable=broad-exception-caught\n      self.release_all()\n      raise\n    self.release_all()\n    return result"),
     B('ownership-test-without-its-pool', 'chainables/courier_worker.py',
       "      if worker.is_locked(self):\n        if worker.has_capacity and worker.is_alive:\n          return worker", "      if worker.is_locked():\n        if worker.has_capacity and worker.is_alive:\n          return worker", 'R-C20-20'),
     B('call-and-wait-releases-on-exception-only', 'chainables/courier_worker.py',
